@@ -473,23 +473,34 @@ def step(cls, name, l, tw, op, hist, ctx):
 
 
 def probe_alias(cls, short, l, tw, op, hist, ctx):
-    """A plain sequence operation returns a NEW sequence: assigning columns of the result through its setters must not show in
-    the receiver.  The receiver is observed again after the result was edited."""
-    try:
-        la = l.deepcopy()
-        r = apply_lib(cls, la, op)
-    except Exception:
-        return
-    ctx.transition(2)
-    try:
-        r.offset = r.offset + 1000.25
-        if is_hold(cls):
-            r.length = r.length + 7.0
-    except Exception:
-        return
+    """A plain sequence operation returns a NEW sequence: editing the result must not show in the receiver. Two edits, each on a
+    result of its own: (a) columns assigned through the setters, (b) in place - `+=` on a column and a positional cell store -
+    which shows shared arrays (a positional slice is a view by pandas' rules and is left out of (b)).
+    The receiver is observed again after each."""
     props = list(cls._item_class()._props)
-    obs = lib_rows(la, props)
-    ctx.check("receiver.after_result_edit", obs == tw, site=dict(cls=short, op=op[0]), case=lambda: dict(cls=short, history=hist + [op, ("alias",)]), observed=obs, expected=tw)
+    for mode in ("setter", "inplace"):
+        if mode == "inplace" and op[0] == "slice":
+            continue
+        try:
+            la = l.deepcopy()
+            r = apply_lib(cls, la, op)
+        except Exception:
+            return
+        ctx.transition(2)
+        try:
+            if mode == "setter":
+                r.offset = r.offset + 1000.25
+                if is_hold(cls):
+                    r.length = r.length + 7.0
+            else:
+                x = r.offset
+                x += 0.5
+                if len(r):
+                    r.df.iloc[0, list(r.df.columns).index("offset")] = -777.0
+        except Exception:
+            continue
+        obs = lib_rows(la, props)
+        ctx.check("receiver.after_result_edit", obs == tw, site=dict(cls=short, op=op[0], edit=mode), case=lambda: dict(cls=short, history=hist + [op, ("alias",)]), observed=obs, expected=tw)
 
 
 def probe_inplace(cls, short, l, tw, hist, ctx):
